@@ -237,6 +237,10 @@ class _CloseInterp(AbsInt):
         self.closure = closure
         self.closing_states: dict[int, set] = {}
         self.depth = 0
+        # variables that hold a note token: built (assigned or extended) from a piece that carries the PITCH prefix
+        self.note_vars = {t.id for n in ast.walk(fn) if isinstance(n, (ast.Assign, ast.AugAssign))
+                          for t in (n.targets if isinstance(n, ast.Assign) else [n.target])
+                          if isinstance(t, ast.Name) and "PITCH" in src(n.value)}
 
     def join(self, a, b):
         return a | b
@@ -290,7 +294,7 @@ class _CloseInterp(AbsInt):
                     ws = list(res)
                 elif isinstance(recv, ast.Name) and recv.id == self.res and name == "append" and c.args:
                     txt = src(c.args[0])
-                    if "PITCH" in txt or (isinstance(c.args[0], ast.Name) and c.args[0].id == "token"):
+                    if "PITCH" in txt or (isinstance(c.args[0], ast.Name) and c.args[0].id in self.note_vars):
                         ws = [self._set(w, note=True)]
             out.update(ws)
         return frozenset(out) or None
@@ -380,3 +384,12 @@ def close_rule(ctx: Ctx, rule: str = "CLOSE") -> None:
               message=f"closing guard `{short(it.closing_node.test, 90)}` is false in the state (bar time = 0, a note was emitted in the bar): the clock is "
                       f"not advanced to the end of that bar, so the next call's events are placed one bar early (and a piece ending with such a bar is "
                       f"not padded to the bar line)", file=fe.file, node=it.closing_node)
+    # converse: a bar that is still untouched (bar time 0, nothing emitted in it) must not be "closed" -- that would append a
+    # whole bar of rests and shift everything the following calls emit by one bar
+    spurious = sorted({(w[0], w[1], tuple(k for k, v_ in w[2] if v_ is True and not k.startswith("$"))) for w, v in states
+                       if w[0] == "Z" and not w[1] and v is not False})
+    ctx.check(not spurious, rule, "tokenise: an untouched bar (bar time 0, no note emitted in it) is not closed at the end of the call",
+              function=fe.qualname, construct="end-of-call bar closing fires for a bar that holds nothing",
+              message=f"closing guard `{short(it.closing_node.test, 90)}` can hold in the state (bar time = 0, no note emitted in the current bar) with "
+                      f"{[list(x[2]) for x in spurious]} still set: an extra bar of rests is appended and every later call is decoded one bar late",
+              file=fe.file, node=it.closing_node)
